@@ -304,6 +304,10 @@ def socket_lane(lane, rng, nstreams):
                 del log[:]
                 raw.push(stream)
                 mode = rng.choice(["bytewise", "random", "whole", "pairs"])
+                # in half of the cases the node's timers fire between reads, with its clock standing still, ticking, or jumping
+                # ahead by minutes or hours (a slow peer; an NTP step; resume from suspend) -- the node meanwhile greets the peer,
+                # asks it for blocks and runs into its own time-outs.  What was read so far stays read
+                timers = rep % 2 == 1
                 sizes = []
                 guard = 0
                 while raw.peer.in_flight and not raw.peer.closed and raw.peer in node.lp.selector.map and guard < 20000:
@@ -311,11 +315,20 @@ def socket_lane(lane, rng, nstreams):
                     sizes.append(size)
                     net.do_read(node, raw.peer, size)
                     guard += 1
+                    if timers and rng.random() < (0.08 if mode in ("bytewise", "pairs") else 0.5):
+                        net.clock.t += rng.choice([0, 1, 59, 61, 61, 600, 7200])
+                        net.do_step(node)
+                        lane.c["timer_steps_between_reads"] = lane.c.get("timer_steps_between_reads", 0) + 1
+                        wg = 0
+                        while raw.peer in node.lp.selector.map and any(a[0] == "write" and a[2] is raw.peer for a in net.enabled()) and wg < 200:
+                            net.do_write(node, raw.peer)
+                            wg += 1
+                        raw.take_received()
                 lane.c["socket_lane_fragmentations"] += 1
                 lane.c["fragmentations"] += 1
                 lane.distinct += 1
                 got = [i for i, _n in log]
-                w = {"stream": stream.hex(), "cuts": [], "corrupt": corrupt, "lane": "socket", "sizes": sizes[:50]}
+                w = {"stream": stream.hex(), "cuts": [], "corrupt": corrupt, "lane": "socket", "sizes": sizes[:50], "timers_between_reads": timers}
                 closed = raw.peer.closed or raw.peer not in node.lp.selector.map
                 if got != exp_ids:
                     lane.v("socket-lane:delivered-sequence-differs", "through the socket path ids %s were delivered, reference "
@@ -525,6 +538,7 @@ def finalize(m, tier):
                    ("refusals_observed", c.get("refusals_observed", 0), 1000), ("streams", c.get("streams", 0), 200),
                    ("messages_delivered", c.get("messages_delivered", 0), 100000),
                    ("largest_legitimate_messages", c.get("largest_legitimate_messages", 0), 3),
-                   ("many_frames_schedules", c.get("many_frames_schedules", 0), 12)],
+                   ("many_frames_schedules", c.get("many_frames_schedules", 0), 12),
+                   ("timer_steps_between_reads", c.get("timer_steps_between_reads", 0), 300)],
         "extra": {"exhaustive_bound": "all 2- and 3-way cuts of every short stream (<= 330/400 bytes)"},
     }
